@@ -683,6 +683,36 @@ fn cases(tier: Tier) -> Vec<SVal> {
             v.push(SVal::Seq(vec![SVal::MapRecover(entries), SVal::StructRecover(fields)]));
         }
     }
+    // names: serde hands variant and field names over as arbitrary strings (`#[serde(rename = ..)]`,
+    // hand-written impls); every one is an ordinary name — the empty string, raw-identifier and
+    // sigil prefixes, digits, the words serde's own attribute syntax uses, keyword-like words
+    {
+        let mut names: Vec<String> = [
+            "", " ", "r#type", "r#", "#", "r", "type", "0", "1", "-1", "a.b", "$value", "$key", "$text", "#text", "@attr", "é", "null", "None", "Some", "Ok", "Err", "_", "__private", "flatten", "tag", "content", "value", "variant",
+            "fields", "untagged", "true", "false", "facts", "a b", "a\nb", "\"q\"", "V ", " V", "v", "V", "NV", "TV", "SV", "self", "Self", "$serde_json::private::Number", "$serde_json::private::RawValue", "$__toml_private_datetime",
+        ]
+        .iter()
+        .map(|s| s.to_string())
+        .collect();
+        names.extend(super::c15::PLAUSIBLE_WORDS.iter().map(|w| w.to_string()));
+        names.push("n".repeat(300));
+        names.sort();
+        names.dedup();
+        for n in names {
+            let n: &'static str = Box::leak(n.into_boxed_str());
+            v.push(SVal::UnitVariant(n));
+            v.push(SVal::NewtypeVariant(n, Box::new(SVal::I8(1))));
+            v.push(SVal::NewtypeVariant(n, Box::new(SVal::Seq(vec![SVal::I8(1), SVal::I8(2)]))));
+            v.push(SVal::TupleVariant(n, vec![SVal::I8(1), SVal::I8(2)]));
+            v.push(SVal::StructVariant(n, vec![("a", SVal::I8(1))]));
+            v.push(SVal::StructVariant("SV", vec![(n, SVal::I8(1)), ("type", SVal::I8(2))]));
+            v.push(SVal::Struct(vec![(n, SVal::I8(1))]));
+            v.push(SVal::Struct(vec![(n, SVal::I8(1)), ("type", SVal::I8(2)), ("v", SVal::I8(3))]));
+            v.push(SVal::Struct(vec![("type", SVal::I8(2)), (n, SVal::I8(1))]));
+            v.push(SVal::Map(vec![(SVal::Str(n.to_string()), SVal::I8(1)), (SVal::Str("type".into()), SVal::I8(2))]));
+            v.push(SVal::Seq(vec![SVal::UnitVariant(n), SVal::NewtypeVariant(n, Box::new(SVal::None))]));
+        }
+    }
     // depth 2 / 3: containers of containers
     let depth2: Vec<SVal> = pool.iter().flat_map(|a| containers(std::slice::from_ref(a))).collect();
     for d in &depth2 {
